@@ -96,8 +96,16 @@ def compute(spec, kw):
         return xr.DataArray(outs[0], dims=tuple(dims), name=name,
                             coords={d: coords[d] for d in dims})
     if ret == "dict":
-        return {name: (tuple(dims), o) for (name, dims), o in
-                zip(spec["vars"], outs)}
+        items = [(name, (tuple(dims), o)) for (name, dims), o in
+                 zip(spec["vars"], outs)]
+        if spec.get("dict_plain") and all(not dims
+                                          for _, dims in spec["vars"]):
+            # a plain dict of scalars, filled in an order that depends on the
+            # arguments (two code paths of the user's function)
+            items = [(name, o) for (name, _), o in zip(spec["vars"], outs)]
+            r = models.kw_number(kw, salt=13) % len(items)
+            items = items[r:] + items[:r]
+        return dict(items)
     raise ValueError(ret)
 
 
